@@ -238,28 +238,32 @@ class C15(Property):
         res.append(self._script([20101, 20102, 20103],
                                 [{"kind": "cache", "nodes": [[0, 100], [1, 100], [2, 100]]}], keys, sops))
         # (2) two cache clusters and a kv store over the same three servers, configured in different orders
-        # with the same weights (same rings), plus a kv store on a subset; every operation of both APIs once
+        # with the same weights (same rings), plus a kv store on a subset: EVERY operation of both APIs on
+        # EVERY key of the right type (6 per type: an operation that dispatches on anything but its key is
+        # caught whatever the owners happen to be)
         keys = [{"inst": 0, "k": "c0:%d" % j} for j in range(6)] + [{"inst": 1, "k": "c1:%d" % j} for j in range(6)]
         k2 = len(keys)
-        keys += self._kv_keys(2, "a", 2)
+        keys += self._kv_keys(2, "a", 6)
         k3 = len(keys)
-        keys += self._kv_keys(3, "b", 1)
+        keys += self._kv_keys(3, "b" + "z" * 70, 3)   # long keys differing only after the 70th byte
         sops = []
-        for j, name in enumerate(CACHE_OPS + ["get", "take", "takex"]):
-            sops += [["op", 0, name, j % 6], ["op", 1, name, 6 + j % 6]]
-        for i, base, per in ((2, k2, 2), (3, k3, 1)):
+        for name in CACHE_OPS + ["get", "take", "takex"]:
+            for j in range(6):
+                sops += [["op", 0, name, j], ["op", 1, name, 6 + j]]
+        for i, base, per in ((2, k2, 6), (3, k3, 3)):
             for ti, t in enumerate("shlpez"):
-                for q, name in enumerate(KV_OPS[t]):
-                    sops.append(["op", i, name, base + ti * per + q % per])
+                for name in KV_OPS[t]:
+                    sops += [["op", i, name, base + ti * per + q] for q in range(per)]
         sops += [["del", 0, [0, 1, 2, 3, 4, 5]], ["del", 1, [6, 7, 8, 9, 10, 11]], ["del", 2, list(range(k2, k3))],
                  ["del", 3, [k3]], ["del", 3, []], ["tick"]]
         res.append(self._script([20111, 20112, 20113],
                                 [{"kind": "cache", "nodes": [[0, 100], [1, 50], [2, 100]]},
                                  {"kind": "cache", "nodes": [[2, 100], [0, 100], [1, 50]]},
                                  {"kind": "kv", "nodes": [[1, 50], [2, 100], [0, 100]]},
-                                 {"kind": "kv", "nodes": [[2, 1], [1, 150]]}], keys, sops))
+                                 {"kind": "kv", "nodes": [[2, 60], [1, 150]]}], keys, sops))
         # (3) a one-node "cluster" (cache.New returns the node itself) beside a two-node one
-        keys = [{"inst": 0, "k": "one:%d" % j} for j in range(4)] + [{"inst": 1, "k": "two:%d" % j} for j in range(6)]
+        keys = [{"inst": 0, "k": "one:%d" % j} for j in range(4)] + \
+               [{"inst": 1, "k": "two:" + "y" * 80 + "\u00fc%d" % j} for j in range(6)]
         sops = [["op", 0, "set", 0], ["op", 0, "take", 1], ["fault", 1, 1], ["del", 0, [0, 1, 2]], ["del", 1, [4, 5, 6, 7, 8, 9]],
                 ["fault", 1, 0], ["tick"], ["op", 1, "get", 4], ["populate"], ["del", 0, [3]], ["del", 1, [4, 5]], ["snap"]]
         res.append(self._script([20121, 20122],
@@ -286,6 +290,11 @@ class C15(Property):
                 nodes[0][1] = 100
             insts.append({"kind": kind, "nodes": nodes})
             tag = "%d/" % rng.randrange(10 ** 6)
+            r = rng.random()
+            if r < 0.2:      # long keys sharing a long prefix
+                tag += "x" * rng.choice([61, 64, 100, 255]) + "/"
+            elif r < 0.3:    # not ASCII
+                tag += "ключ\u00e9\u4e2d/"
             if kind == "cache":
                 skeys += [{"inst": i, "k": "c%d:%s%d" % (i, tag, j)} for j in range(rng.randint(6, 12))]
             else:
@@ -595,6 +604,9 @@ class C15(Property):
             return Property.shrink_candidates(self, case)
         ops = case["sops"]
         res, n = [], len(ops)
+        if n > 8:   # one operation alone (dispatch errors need no history)
+            step = max(1, n // 150)
+            res += [dict(case, sops=[o]) for o in ops[::step] if o[0] in ("op", "del")]
         chunk = max(1, n // 2)
         while chunk >= 1 and n > 1:
             for i in range(0, n, chunk):
@@ -612,7 +624,7 @@ class C15(Property):
                     c = dict(case)
                     c["sops"] = ops[:i] + [["del", o[1], o[2][:q] + o[2][q + 1:]]] + ops[i + 1:]
                     res.append(c)
-        return res[:200]
+        return res[:400]
 
     def nontrivial(self, case, obs):
         if case.get("kind") == "script":
